@@ -160,6 +160,7 @@ func (c *Client) track(keys ...[]byte) {
 
 // Begin starts a transaction: pess, mode ∈ {2pc, async, 1pc}.
 func (c *Client) Begin(pess bool, mode string) (uint64, string) {
+	c.w.gate.pseudo(c, "begin") // controlled mode: starting a transaction (its start timestamp) is a scheduled event
 	n := c.callBegin("begin", b01(pess), mode)
 	txn, err := c.store.Begin()
 	if err != nil {
